@@ -258,6 +258,56 @@ def attribute(report, tpl):
     return ",".join(sorted(kinds)) or "unknown"
 
 
+TAGGED_PROPS = [
+    "!Ref Image", '!Sub "${AWS::StackName}-x"', "!GetAtt other.Arn", "!GetAtt [other, Arn]", '!Join ["", [a, !Ref b]]', '!Select [0, !GetAZs ""]',
+    '!Split [",", "a,b"]', "!ImportValue\n        Fn::Sub: \"${Net}-subnet\"", "!Base64 {Fn::Sub: abc}", "!Ref 123", '!Join "x"', "!Ref [a]",
+    "!If [c, 1, 2]", "!FindInMap [m, k, v]", "!Base64\n        Fn::Join: ['', [a, b]]", "plain", "5", "!Condition c", "!Cidr [a, 2, 3]",
+]
+
+
+def check_tagged(ctx, rng, sdir):
+    """YAML templates written with CloudFormation short-form tags (on scalars, sequences AND mappings): rulegen may refuse them, but whatever it
+    emits must hold on the very text it was generated from"""
+    types = rng.sample(["AWS::EC2::Instance", "AWS::SNS::Topic", "AWS::S3::Bucket"], rng.randint(1, 3))
+    lines = ["Resources:"]
+    for i in range(rng.randint(1, 4)):
+        lines += ["  r%d:" % i, "    Type: %s" % rng.choice(types), "    Properties:"]
+        for j in range(rng.randint(1, 4)):
+            lines.append("      P%d: %s" % (j, rng.choice(TAGGED_PROPS)))
+    text = "\n".join(lines) + "\n"
+    path = os.path.join(sdir, "tagged.yaml")
+    open(path, "w").write(text)
+    case = {"kind": "tagged", "text": text}
+    ctx.res.cases += 1
+    code, out, err = run_rulegen(path)
+    if code is None or code < 0 or code in (101, 134):
+        ctx.inconclusive("rulegen-crash (C08)")
+        return
+    if err.strip() or code != 0 or not out.strip():
+        ctx.res.counts["tagged_templates_refused"] += 1
+        ctx.res.distinct.add(("tagged", "error-reported"))
+        return
+    ctx.res.counts["tagged_templates_accepted"] += 1
+    pt = ctx.w.run({"k": "cli", "argv": ["parse-tree", "-p"], "stdin": out})
+    if pt.get("r") != "ok":
+        ctx.violation("rulegen:tagged-template:output-does-not-parse", "emitted text is not a rules file: %s" % pt.get("emsg", "")[:200], case)
+        return
+    r = ctx.w.run({"k": "cli", "argv": ["validate", "-r", "{S}/g.guard", "-d", "{S}/tagged.yaml", "--structured", "-S", "none", "-o", "json"],
+                   "files": {"g.guard": out, "tagged.yaml": text}})
+    if r.get("r") != "ok":
+        if core.crash_signature(r):
+            ctx.inconclusive("validate-crash")
+        else:
+            ctx.violation("rulegen:tagged-template:self-validation-error", "validating the tagged template against its generated rules fails: %s" % r.get("emsg", "")[:200], dict(case, rules=out))
+        return
+    st = obs.report_statuses(json.loads(r["out"])[0])
+    bad = {k: v for k, v in st.items() if v != ["PASS"]}
+    if bad:
+        ctx.violation("rulegen:tagged-template:self-validation", "rules generated from a template with short-form tags do not PASS on that template: %s\n%s" % (bad, out[:500]), dict(case, rules=out))
+    else:
+        ctx.res.distinct.add(("tagged", "self-pass"))
+
+
 def shard(ctx):
     rng = ctx.rng("c19")
     sdir = os.path.join(core.SCRATCH, "c19-%d-%d" % (os.getpid(), ctx.shard))
@@ -267,6 +317,8 @@ def shard(ctx):
         for t in range(n):
             tpl, classes = gen_template(rng)
             check_template(ctx, rng, tpl, classes, sdir)
+            if t % 3 == 0:
+                check_tagged(ctx, rng, sdir)
     finally:
         shutil.rmtree(sdir, ignore_errors=True)
 
@@ -283,6 +335,21 @@ def replay(case, w):
     sdir = os.path.join(core.SCRATCH, "c19-replay-%d" % os.getpid())
     os.makedirs(sdir, exist_ok=True)
     try:
+        if case.get("kind") == "tagged":
+            check_tagged_text = case["text"]       # replay the stored text itself
+            path = os.path.join(sdir, "tagged.yaml")
+            open(path, "w").write(check_tagged_text)
+            code, out, err = run_rulegen(path)
+            if code == 0 and out.strip() and not err.strip():
+                r = w.run({"k": "cli", "argv": ["validate", "-r", "{S}/g.guard", "-d", "{S}/tagged.yaml", "--structured", "-S", "none", "-o", "json"],
+                           "files": {"g.guard": out, "tagged.yaml": check_tagged_text}})
+                if r.get("r") != "ok":
+                    found.append("self-validation-error")
+                else:
+                    st = obs.report_statuses(json.loads(r["out"])[0])
+                    if any(v != ["PASS"] for v in st.values()):
+                        found.append("self-validation")
+            return not found, "violations: %s" % found
         check_template(c, random.Random(1), case["template"], set(), sdir)
     finally:
         shutil.rmtree(sdir, ignore_errors=True)
